@@ -69,6 +69,9 @@ def handlers : List (String × Handler) := [
         " restoresSome=" ++ toString (restoresCwd chdirSome) ++ " restoresNone=" ++ toString (restoresCwd chdirNone) ++
         " writesOnlyInLoop=" ++ toString (writesOnlyInLoop pre loopBody post) ++
         " refuter=" ++ (match firstRefuter with | some s => s.replace " " "_" | none => "none") ++
+        " effectsAfterRaises=" ++ toString (effectsAfterRaises chdirSome pre loopBody post && effectsAfterRaises chdirNone pre loopBody post) ++
+        " ctxRefuter=" ++ (match (effectRefuter chdirSome pre loopBody post).orElse (fun _ => effectRefuter chdirNone pre loopBody post) with
+          | some s => s.replace " " "_" | none => "none") ++
         " tableMeetsContract=" ++ toString (tableMeetsContract refusals) ++
         " contractRefuter=" ++ (match contractRefuter refusals with
           | some (r, o) => resultName r ++ "/" ++ (if o.isNone then "stdout" else if o.hasSuffix then "suffix" else "nosuffix")
@@ -82,6 +85,21 @@ def handlers : List (String × Handler) := [
         | some r => "ok contract=" ++ decisionStr (contractDecision r ⟨n, s⟩) ++ " table=" ++ decisionStr (tableDecision r ⟨n, s⟩ refusals)
         | none => "err result kind"
       | _, _, _ => "err args"
+    | _ => "err args"),
+  -- `write.chdir <path is not None> <fault>`: the context manager alone. fault: `none`, `enter` (the switch to the target raises),
+  -- `body` (the body of the `with` raises). Reply: directory while the body runs, directory afterwards, effect steps executed.
+  ("write.chdir", fun
+    | [some?, fault] =>
+      match some?.bool?, strOf fault with
+      | some sm, some fl =>
+        let cs := if sm then chdirSome else chdirNone
+        let enterIdx := ((ctxEnter cs).zipIdx.find? (fun p => p.1.kind == .chdirTarget)).map (·.2)
+        let f : Option Nat := if fl == "enter" then enterIdx else if fl == "body" then some (yieldIndex cs) else none
+        let nm (c : Cwd) := if c == .orig then "orig" else "target"
+        "ok inside=" ++ nm (cwdInside cs) ++ " after=" ++ nm (cwdAfter cs f) ++
+          " mkdirs=" ++ toString ((ctxEffectsBefore cs f).filter (·.kind == .mkdir)).length ++
+          " otherEffects=" ++ toString ((ctxEffectsBefore cs f).filter (·.kind != .mkdir)).length ++ " entered=" ++ toString (fl != "enter" || enterIdx.isNone)
+      | _, _ => "err args"
     | _ => "err args"),
   ("write.steps", fun
     | [seg] => match strOf seg with
